@@ -297,7 +297,10 @@ func (c *FnCtx) callSpec(ct *Contract, fn *ssa.Function, args []Value, st *State
 			}
 			f.DeclareFun(n, sorts, rs)
 			t := f.App(n, rs, ts...)
-			c.assumeWF(st, t, rt)
+			if rs != SB {
+				// (specification-level strings are mathematical sequences: no machine length bound)
+				c.assumeWF(st, t, rt)
+			}
 			return t
 		}
 		if ct.Rec || c.revealed[ct.Key] {
